@@ -177,7 +177,19 @@ pub fn run(args: &Args) {
     // benign: packages built by the library
     let wd = gen_::Workdir::new("c12");
     for i in 0..args.num("n", 30) {
-        let cfg = gen_::rand_cfg(&mut rng, 6, 3000);
+        let mut cfg = gen_::rand_cfg(&mut rng, 6, 3000);
+        if i % 3 == 0 {
+            // a directory with unusual permission bits that holds a file (and a nested one)
+            let perm = [0o700u16, 0o2770, 0o1777, 0o750][(i as usize / 3) % 4];
+            let mut used = vec![];
+            let mut d = gen_::rand_file(&mut rng, &mut used, 10);
+            d.dest = format!("/srv/box{i}"); d.mode = Some(0o040000 | perm); d.len = 0; d.link = None;
+            let mut f = gen_::rand_file(&mut rng, &mut used, 50);
+            f.dest = format!("/srv/box{i}/inner/data.bin"); f.mode = Some(0o100640); f.link = None;
+            let mut d2 = gen_::rand_file(&mut rng, &mut used, 10);
+            d2.dest = format!("/srv/box{i}/inner"); d2.mode = Some(0o040000 | 0o2775); d2.len = 0; d2.link = None;
+            cfg.files.extend([d, f, d2]);
+        }
         let Ok(Ok(p)) = guarded(|| gen_::build(&cfg, &wd)) else { continue };
         let mut bytes = vec![];
         p.write(&mut bytes).unwrap();
